@@ -43,3 +43,10 @@ META["C18"] = dict(
     text=("Generated search over (kernel pair, scale, subsample bits) per axis with the library built under ASan; the returned block "
           "is checked for announced length, header, exact phase sums, acceptance by set_filter and constancy of a filtered constant image."),
     note="Trusted: ASan for out-of-block writes; vf_malloc shim for the allocation size. Found and fixed: S12.")
+META["C10"] = dict(
+    technique="property-based testing (rapidcheck) with per-format exhaustive value enumeration vs. an independent codec; differential (accessor vs direct, scanline vs pixel reader)",
+    design_ref="§4 C10",
+    text=("For every format: all 2^bpp pixel values (<= 16 bpp) or structured + random samples are pushed through the library and "
+          "compared with an independent codec; random sub-rectangles check store locality bit by bit; accessor images are compared "
+          "with direct images and every callback address is range-checked."),
+    note="Trusted: harness/img.hpp codec. ASan variant re-runs the random part.")
